@@ -78,8 +78,9 @@ func (c *cachedRoutes) Set(k string, v *Route) bool {
 // Get cached Route by key
 func (c *cachedRoutes) Get(k string) (*Route, bool) {
 	verifYield("cache.lock.get")
-	c.lock.RLock()
-	defer c.lock.RUnlock()
+	// NOTICE: must use the write lock, MoveToFront() will modify the list.
+	c.lock.Lock()
+	defer c.lock.Unlock()
 
 	if element, ok := c.hashMap[k]; ok {
 		c.list.MoveToFront(element)
